@@ -3700,10 +3700,21 @@ func (db *DB) EnforceRetention(ctx context.Context, minTime time.Time) error {
 		return nil // no LTX files, exit
 	}
 
+	// Determine the highest transaction ID in the log. The file names sort by
+	// their minimum TXID so the last entry is not necessarily the newest file:
+	// a snapshot that has just been renamed into the directory sorts before
+	// the files it is about to replace.
+	var highestTXID ltx.TXID
+	for _, ent := range ents {
+		if _, maxTXID, err := ltx.ParseFilename(ent.Name()); err == nil && maxTXID > highestTXID {
+			highestTXID = maxTXID
+		}
+	}
+
 	// Delete all files that are before the minimum time.
 	var totalN int
 	var totalSize int64
-	for i, ent := range ents {
+	for _, ent := range ents {
 		// Check if file qualifies for deletion.
 		fi, err := ent.Info()
 		if err != nil {
@@ -3727,7 +3738,7 @@ func (db *DB) EnforceRetention(ctx context.Context, minTime time.Time) error {
 		}
 
 		// Ensure the latest LTX file is never deleted.
-		if i == len(ents)-1 {
+		if maxTXID == highestTXID {
 			shouldRemove = false
 		}
 
